@@ -286,7 +286,7 @@ func r043(c *Ctx, r *R) {
 	}
 	for _, lf := range returnLeaves(sp, 0) {
 		if isNilConst(lf.Val) {
-			r.Check(guardedBy(lf.Block, func(g Guard) bool { return gCallErrNil(g, ModPath+".Cluster).setupReplicationFactor") }), "setupPin:nil-after-factors", lf.Pos,
+			r.Check(lf.GuardedBy(func(g Guard) bool { return gCallErrNil(g, ModPath+".Cluster).setupReplicationFactor") }), "setupPin:nil-after-factors", lf.Pos,
 				"setupPin returns nil only after the replication factors were validated", "setupPin can return nil without validating the replication factors")
 		}
 	}
